@@ -3,7 +3,7 @@
 
   `JV.Model.Typed.conv t j` is the composition "convert j to the C++ type described by t, express the result as JSON" that both
   routes (json_traits on a basic_json, decode_traits/encode_traits on the event stream) have to compute. The correspondence check
-  runs 23 concrete C++ types — one per descriptor in the driver's table — through both routes in five formats and judges them
+  runs 49 concrete C++ types — one per descriptor in the driver's table — through both routes in five formats and judges them
   against each other and against `conv`.
 
   Proved: for every descriptor built from integers, strings, booleans, sequences, maps, tuples, pairs, fixed arrays, optionals
@@ -35,6 +35,15 @@ theorem short_tuple_is_an_error (t : Ty) (ts : List Ty) : convTuple (t :: ts) []
 theorem fixed_array_needs_exact_length (t : Ty) (n : Nat) (xs : List JVal) (h : xs.length ≠ n) :
     conv (.array t n) (.arr xs) = .error .conv := by
   simp [conv, h]
+
+/-- a pair takes an array of exactly two elements: a shorter or a longer one is a conversion error, nothing is dropped -/
+theorem pair_needs_exactly_two (a b : Ty) (xs : List JVal) (h : xs.length ≠ 2) :
+    conv (.pair a b) (.arr xs) = .error .conv := by
+  match xs, h with
+  | [], _ => simp [conv]
+  | [_], _ => simp [conv]
+  | [_, _], h => exact absurd rfl h
+  | _ :: _ :: _ :: _, _ => simp [conv]
 
 /-! non-vacuity -/
 example : Simple (.seq (.tuple [.int (-128) 127, .str, .opt .bool])) := by simp [Simple, SimpleList]
